@@ -277,7 +277,9 @@ def _run_cases(stream, cases, driver, summary, oracle_only=False):
     for i, (case, r) in enumerate(zip(cases, impl_results)):
         summary["evaluations"] += 1
         if isinstance(r, dict) and "harness-exception" in r:
-            summary["harness_errors"].append({"case": case, "error": r})
+            summary["harness_error_count"] += 1
+            if len(summary["harness_errors"]) < 20:
+                summary["harness_errors"].append({"case": case, "error": r})
             continue
         fl = sorted(set(stream.flags(case, r)))
         for f in fl:
@@ -315,11 +317,12 @@ def _run_cases(stream, cases, driver, summary, oracle_only=False):
 def new_summary():
     return {"evaluations": 0, "corr_cases": 0, "corr_agreed": 0, "disagreements": [], "disagreements_more": 0,
             "oracle_cases": 0, "oracle_failures": [], "oracle_fail_count": collections.Counter(),
-            "distribution": collections.Counter(), "nontrivial_digests": set(), "samples": [], "harness_errors": []}
+            "distribution": collections.Counter(), "nontrivial_digests": set(), "samples": [], "harness_errors": [],
+            "harness_error_count": 0}
 
 
 def merge_summary(a, b):
-    for k in ("evaluations", "corr_cases", "corr_agreed", "disagreements_more", "oracle_cases"):
+    for k in ("evaluations", "corr_cases", "corr_agreed", "disagreements_more", "oracle_cases", "harness_error_count"):
         a[k] += b[k]
     a["disagreements"] = (a["disagreements"] + b["disagreements"])[:50]
     a["oracle_failures"] = (a["oracle_failures"] + b["oracle_failures"])[:400]
@@ -501,11 +504,11 @@ def run_check(prop, tier, seed, replay=None):
                               "distribution": dict(sm["distribution"].most_common(40))}
         merge_summary(total, sm)
 
-    if total["harness_errors"] and not total["disagreements"] and not total["oracle_failures"]:
+    if total["harness_error_count"] and not total["disagreements"] and not total["oracle_failures"]:
         # harness trouble is never a violation
-        if len(total["harness_errors"]) > max(3, total["evaluations"] // 50):
-            print(json.dumps(total["harness_errors"][:3], indent=1, default=str)[:6000])
-            print("INFRA: harness errors on %d cases" % len(total["harness_errors"]))
+        if total["harness_error_count"] > max(3, total["evaluations"] // 50):
+            print(json.dumps(total["harness_errors"][:2], indent=1, default=str)[:4000])
+            print("INFRA: harness errors on %d cases (the implementation could not be exercised)" % total["harness_error_count"])
             return 2
 
     corr_broken = bool(total["disagreements"])
